@@ -38,14 +38,14 @@ var methods = map[string][]sig{
 		{"RemoveValues", "S", 2}, {"RemoveAll", "", 1}, {"GetCollator", "", 1}}),
 	"Stack": cat(seqRead, []sig{{"AddValue", "t", 6}, {"RemoveTop", "", 4}, {"RemoveAll", "", 1}, {"GetCapacity", "", 1}}),
 	"Queue": cat(seqRead, []sig{{"AddValue", "t", 6}, {"RemoveHead", "", 4}, {"RemoveAll", "", 1}, {"GetCapacity", "", 1}, {"CloseQueue", "", 1}}),
-	"Catalog": cat(seqRead, sortable, []sig{{"GetValue", "k", 2}, {"SetValue", "kt", 8}, {"RemoveValue", "k", 4}, {"RemoveAll", "", 1},
+	"Catalog": cat(seqRead, sortable, []sig{{"GetValue", "k", 2}, {"SetValue", "kv", 8}, {"RemoveValue", "k", 4}, {"RemoveAll", "", 1},
 		{"GetKeys", "", 1}, {"GetValues", "Q", 2}, {"RemoveValues", "Q", 2}}),
-	"Map": cat(seqRead, []sig{{"GetValue", "k", 2}, {"SetValue", "kt", 8}, {"RemoveValue", "k", 4}, {"RemoveAll", "", 1},
+	"Map": cat(seqRead, []sig{{"GetValue", "k", 2}, {"SetValue", "kv", 8}, {"RemoveValue", "k", 4}, {"RemoveAll", "", 1},
 		{"GetKeys", "", 1}, {"GetValues", "Q", 2}, {"RemoveValues", "Q", 2}}),
 	"Iter": {{"HasNext", "", 1}, {"HasPrevious", "", 1}, {"GetNext", "", 4}, {"GetPrevious", "", 4}, {"ToStart", "", 1}, {"ToEnd", "", 1},
 		{"ToSlot", "j", 3}, {"GetSlot", "", 1}, {"GetSize", "", 1}, {"IsEmpty", "", 1}},
 	"GoArray": {{"Poke", "pt", 1}},
-	"GoMap":   {{"Poke", "kt", 2}, {"Delete", "k", 1}},
+	"GoMap":   {{"Poke", "kv", 2}, {"Delete", "k", 1}},
 }
 
 // class-level operations per family: {kind, method, args, element class}
@@ -113,7 +113,7 @@ func (g *rgen[K, V]) objLen(id int) int     { return len(g.w[id-1].(map[string]a
 func (g *rgen[K, V]) tok(ec byte) any {
 	var t = g.r.Intn(g.dom + 1)
 	if ec == 'A' {
-		return []any{t, g.r.Intn(3)}
+		return ACode(t, g.r.Intn(3))
 	}
 	return t
 }
@@ -193,6 +193,8 @@ func (g *rgen[K, V]) genArg(letter byte, self int, ec byte) (any, bool) {
 		return g.tok(ec), true
 	case 'k':
 		return g.r.Intn(g.dom + 1), true
+	case 'v': // a value stored under a key
+		return g.r.Intn(3), true
 	case 'p':
 		if n == 0 {
 			return nil, false
@@ -236,7 +238,12 @@ func (g *rgen[K, V]) genArg(letter byte, self int, ec byte) (any, bool) {
 			}
 		}
 		var base = len(g.in.objs) + len(g.pre)
-		g.pre = append(g.pre, Step{K: "GoMap", M: "New", Args: []any{g.lit('A')}})
+		var n = g.r.Intn(4)
+		var ps = make([]any, n)
+		for i := range ps {
+			ps[i] = []any{g.r.Intn(g.dom + 1), g.r.Intn(3)}
+		}
+		g.pre = append(g.pre, Step{K: "GoMap", M: "New", Args: []any{ps}})
 		return base + 1, true
 	case 'L', 'T', 'C': // an existing List / Set / Catalog-or-Map-or-fresh association sequence
 		var kind = map[byte]string{'L': "List", 'T': "Set", 'C': "Catalog"}[letter]
